@@ -73,6 +73,23 @@ fn answer(line: &str) -> String {
         let outs: Vec<String> = rest.split(";;").map(|x| x.trim()).filter(|x| !x.is_empty()).map(|l| answer_owned(l)).collect();
         return format!("ok {}", outs.join(" ;; "));
     }
+    if name == "freshthreads" {
+        // freshthreads <n> <request> : the request once on each of n newly spawned threads (in waves of 32); how many distinct answers
+        if args.len() < 2 { return "bad-request".to_string(); }
+        let n: usize = match args[0].parse() { Ok(v) => v, Err(_) => return "bad-request".to_string() };
+        let req = args[1..].join(" ");
+        let mut answers: Vec<String> = Vec::new();
+        let mut left = n;
+        while left > 0 {
+            let wave = left.min(32);
+            let hs: Vec<_> = (0..wave).map(|_| { let r = req.clone(); std::thread::spawn(move || answer_owned(&r)) }).collect();
+            for h in hs { answers.push(h.join().unwrap_or_else(|_| "fault".to_string())); }
+            left -= wave;
+        }
+        let faults = answers.iter().filter(|a| !a.starts_with("ok ")).count();
+        let mut sorted = answers.clone(); sorted.sort(); sorted.dedup();
+        return format!("ok n={} distinct={} faults={}", n, sorted.len(), faults);
+    }
     if name == "interleave" {
         // interleave <threads> <rounds> <request> ;; <request> ;; ...
         if args.len() < 3 { return "bad-request".to_string(); }
